@@ -53,6 +53,7 @@ Definition var_int_le (fn : string) (a b : expr) (fr : frame) (g : glob) : optio
 Section Expr.
 Variable callf : callfn.
 Variable funs : list fundef.
+Variable clos : list clodef.
 Variable fn : string.
 
 Fixpoint ieval (e : expr) (fr : frame) (g : glob) {struct e} : res eout :=
@@ -128,7 +129,7 @@ Fixpoint ieval (e : expr) (fr : frame) (g : glob) {struct e} : res eout :=
       | Some _ =>
           match ieval_args a fr g with
           | Res (inl vs) fr g =>
-              match callf f vs g with
+              match callf (CFun f) vs g with
               | Some (o, g') => Res o fr g'                        (* the caller's frame is untouched *)
               | None => Fuel
               end
@@ -169,6 +170,39 @@ Fixpoint ieval (e : expr) (fr : frame) (g : glob) {struct e} : res eout :=
       | r => r
       end
   | EPanic => Res (EX (VErr "go panic")) fr g        (* recovered by TryStatement.guarded *)
+  | EIdx x i =>
+      match ieval i fr g with
+      | Res (EV iv) fr g => Res (EV (arr_get (rd fn x fr g) iv)) fr g
+      | r => r
+      end
+  | EIdxInc pre x i =>                               (* the index is evaluated once *)
+      match ieval i fr g with
+      | Res (EV iv) fr g =>
+          let '(nv, ov) := incr_value (arr_get (rd fn x fr g) iv) in
+          let '(fr', g') := wr fn x (arr_set (rd fn x fr g) iv nv) fr g in
+          Res (EV (if pre then nv else ov)) fr' g'
+      | r => r
+      end
+  | EClosure id =>                                    (* by-value captures are taken now *)
+      match nth_error clos id with
+      | Some cd => Res (EV (VClo id (gnext g) (capture fn (cuses cd) fr g))) fr (bump g)
+      | None => Res (EX (VErr "no such closure")) fr g
+      end
+  | ECallV f a =>
+      match ieval f fr g with
+      | Res (EV (VClo id oid cap)) fr g =>
+          match ieval_args a fr g with
+          | Res (inl vs) fr g =>
+              match callf (CClo id oid cap) vs g with
+              | Some (o, g') => Res o fr g'
+              | None => Fuel
+              end
+          | Res (inr x) fr g => Res (EX x) fr g
+          | Fuel => Fuel
+          end
+      | Res (EV _) fr g => Res (EX (VErr "not callable")) fr g
+      | r => r
+      end
   | EMatch s m =>                                     (* MatchStatement.GetValue *)
       match ieval s fr g with
       | Res (EV v) fr g => ieval_arms v m fr g
@@ -318,23 +352,38 @@ Fixpoint find_catch (cm : catchfn) (cs : catches) (x : value) : option (option s
 Section Stmt.
 Variable cm : catchfn.
 Variable funs : list fundef.
+Variable clos : list clodef.
 
 Fixpoint iexec (n : nat) (fn : string) (s : stmt) (fr : frame) (g : glob) {struct n} : res ictl :=
   match n with
   | O => Fuel
   | S n' =>
     (* CallExpression.GetValue + FunctionStatement.Call: fresh frame, parameters bound, body run *)
-    let callf : callfn := fun f vs g =>
-      match find_fun funs f with
-      | None => Some (EX (err "undefined function"), g)
-      | Some d =>
-          match iexec n' f (fbody d) (bind_params (fparams d) vs [], []) g with
-          | Fuel => None
-          | Res c _ g' => Some (call_result c, g')
+    let callf : callfn := fun c vs g =>
+      match c with
+      | CFun f =>
+          match find_fun funs f with
+          | None => Some (EX (err "undefined function"), g)
+          | Some d =>
+              match iexec n' f (fbody d) (bind_params (fparams d) vs [], []) g with
+              | Fuel => None
+              | Res c _ g' => Some (call_result c, g')
+              end
+          end
+      | CClo id oid cap =>
+          (* LambdaExpression.Call: a fresh context, the parameters, then the captured values; the
+             closure object's own static store *)
+          match nth_error clos id with
+          | None => Some (EX (VErr "no such closure"), g)
+          | Some cd =>
+              match iexec n' (clo_name oid) (cbody cd) (bind_captured cap (bind_params (cparams cd) vs []), []) g with
+              | Fuel => None
+              | Res c _ g' => Some (call_result c, g')
+              end
           end
       end in
-    let ev := ieval callf funs fn in
-    let cond := icond callf funs fn in
+    let ev := ieval callf funs clos fn in
+    let cond := icond callf funs clos fn in
     match s with
     | SSkip => Res INone fr g
     | SSeq a b =>
@@ -357,6 +406,12 @@ Fixpoint iexec (n : nat) (fn : string) (s : stmt) (fr : frame) (g : glob) {struc
     | SPush x e =>
         match ev e fr g with
         | Res (EV v) fr g => let '(fr', g') := wr fn x (arr_push (rd fn x fr g) v) fr g in Res INone fr' g'
+        | Res (EX x) fr g => Res (IThrow x) fr g
+        | Fuel => Fuel
+        end
+    | SSetIdx x k e =>                                            (* BinaryAssign on an IndexExpression *)
+        match ev e fr g with
+        | Res (EV v) fr g => let '(fr', g') := wr fn x (arr_set (rd fn x fr g) (VInt k) v) fr g in Res INone fr' g'
         | Res (EX x) fr g => Res (IThrow x) fr g
         | Fuel => Fuel
         end
@@ -393,18 +448,18 @@ Fixpoint iexec (n : nat) (fn : string) (s : stmt) (fr : frame) (g : glob) {struc
             end
         end
     | SFor init c inc b =>                                        (* ForStatement.GetValue *)
-        match ieval_each callf funs fn init fr g with
+        match ieval_each callf funs clos fn init fr g with
         | Fuel => Fuel
         | Res (Some x) fr g => Res (IThrow x) fr g
         | Res None fr g =>
-            thr (icond_for callf funs fn c fr g) (fun t fr g =>
+            thr (icond_for callf funs clos fn c fr g) (fun t fr g =>
               if t then
                 match iexec n' fn b fr g with
                 | Fuel => Fuel
                 | Res cb fr g =>
                     match loop_ctl cb with
                     | LNext =>
-                        match ieval_incs callf funs fn inc fr g with
+                        match ieval_incs callf funs clos fn inc fr g with
                         | Fuel => Fuel
                         | Res (Some x) fr g => Res (IThrow x) fr g
                         | Res None fr g => iexec n' fn (SFor ANil c inc b) fr g
@@ -525,6 +580,6 @@ Definition irun (n : nat) (p : stmt) : obs :=
   end.
 End Stmt.
 
-Definition run_impl (cm : catchfn) (n : nat) (p : prog) : obs := irun cm (funcs p) n (main p).
+Definition run_impl (cm : catchfn) (n : nat) (p : prog) : obs := irun cm (funcs p) (closures p) n (main p).
 (* programs without try/catch do not consult the catch-type test *)
 Definition no_catch : catchfn := fun _ _ => false.
